@@ -24,6 +24,8 @@ verus! {
 pub assume_specification[<Token as Clone>::clone](t: &Token) -> (r: Token) ensures r == *t;
 pub assume_specification[<Lex as Clone>::clone](t: &Lex) -> (r: Lex) ensures r == *t;
 pub assume_specification[<Token as PartialEq>::eq](a: &Token, b: &Token) -> (r: bool) ensures r == (*a == *b);
+// A-TOK (ASCII): byte length == number of characters == number of columns
+pub assume_specification[String::len](s: &String) -> (r: usize) ensures r == s@.len(), r <= isize::MAX;
 pub assume_specification[<i32 as From<bool>>::from](b: bool) -> (r: i32) ensures r == (if b { 1i32 } else { 0i32 });
 pub assume_specification<T, U, F: FnOnce(T) -> U>[Option::<T>::map_or](o: Option<T>, d: U, f: F) -> (r: U)
     requires o is Some ==> f.requires((o->Some_0,)),
@@ -46,30 +48,68 @@ pub open spec fn tok_breaks(t: Token) -> nat {
     }
 }
 
-/// A-TOK: number of source columns the spelling of a token occupies (= `to_string().len()`).
-/// The synthetic tokens have the widths `Display for Token` gives them ("" / four spaces).
-pub uninterp spec fn tok_text_width(t: Token) -> usize;
-pub open spec fn tok_width(t: Token) -> usize {
+/// number of characters after the last line break of a text (the whole text if it has none)
+pub open spec fn last_line_len(s: Seq<char>) -> nat
+    decreases s.len()
+{
+    if s.len() == 0 { 0 } else if s.last() == '\n' { 0 } else { last_line_len(s.drop_last()) + 1 }
+}
+
+/// C18 "the canonical spelling of a token": number of source columns each token kind occupies.
+/// Written from the language's token spellings (keywords, operators, literals as written).
+pub open spec fn tok_width(t: Token) -> nat {
     match t {
-        Token::NL => 0,
-        Token::Dedent => 0,
+        Token::From => 4, Token::Type => 4, Token::Class => 5, Token::Pure => 4, Token::IsA => 3,
+        Token::As => 2, Token::Import => 6, Token::Forward => 7,
+        Token::Point => 1, Token::Comma => 1, Token::DoublePoint => 1, Token::Vararg => 6, Token::BSlash => 1,
+        Token::Id(s) => s@.len(),
+        Token::Fin => 3, Token::Assign => 2, Token::AddAssign => 2, Token::SubAssign => 2, Token::MulAssign => 2,
+        Token::DivAssign => 2, Token::PowAssign => 2, Token::BLShiftAssign => 3, Token::BRShiftAssign => 3, Token::Def => 3,
+        Token::Real(s) => s@.len(), Token::Int(s) => s@.len(),
+        Token::ENum(b, e) => b@.len() + 1 + e@.len(),
+        Token::Str(s, _) => s@.len() + 2,
+        Token::DocStr(s) => s@.len() + 6,
+        Token::Range => 2, Token::RangeIncl => 3, Token::Slice => 2, Token::SliceIncl => 3,
+        Token::Add => 1, Token::Sub => 1, Token::Mul => 1, Token::Div => 1, Token::FDiv => 2, Token::Pow => 1,
+        Token::Mod => 3, Token::Sqrt => 4,
+        Token::BAnd => 5, Token::BOr => 4, Token::BXOr => 5, Token::BOneCmpl => 5, Token::BLShift => 2, Token::BRShift => 2,
+        Token::Ge => 1, Token::Geq => 2, Token::Le => 1, Token::Leq => 2,
+        Token::Eq => 1, Token::Is => 2, Token::Neq => 2, Token::And => 3, Token::Or => 2, Token::Not => 3,
+        Token::LRBrack => 1, Token::RRBrack => 1, Token::LSBrack => 1, Token::RSBrack => 1, Token::LCBrack => 1,
+        Token::RCBrack => 1, Token::Ver => 1, Token::To => 2, Token::BTo => 2,
+        Token::NL => 0, Token::Indent => 4, Token::Dedent => 0, Token::Underscore => 1,
+        Token::Raise => 5, Token::When => 4,
+        Token::While => 5, Token::For => 3, Token::In => 2, Token::If => 2, Token::Then => 4, Token::Match => 5,
+        Token::Else => 4, Token::Do => 2, Token::Continue => 8, Token::Break => 5, Token::Ret => 6, Token::With => 4,
+        Token::Question => 1, Token::Handle => 6, Token::Pass => 4,
+        Token::Comment(s) => s@.len() + 1,
         Token::Eof => 0,
-        Token::Indent => 4,
-        _ => tok_text_width(t),
     }
 }
 
-/// A-TOK for multi-line tokens: columns occupied on the token's *last* line (incl. closing quote)
-pub uninterp spec fn tok_last_line_width(t: Token) -> usize;
+/// columns the token occupies on its LAST line: its width if it has no line break, otherwise the
+/// characters after the last break plus the closing delimiter (1 quote for a string, 3 for a doc-string)
+pub open spec fn tok_last_line_width(t: Token) -> nat {
+    if tok_breaks(t) == 0 { tok_width(t) } else {
+        match t {
+            Token::Str(s, _) => last_line_len(s@) + 1,
+            Token::DocStr(s) => last_line_len(s@) + 3,
+            _ => tok_width(t),
+        }
+    }
+}
 
 pub open spec fn is_synthetic(t: Token) -> bool {
     t == Token::NL || t == Token::Indent || t == Token::Dedent
 }
 
-/// C18: where the caret must be after consuming token `t` that starts at `p`
-/// (line exact for every token; column exact for tokens that do not span lines)
-pub open spec fn span_end_line(p: CaretPos, t: Token) -> int { p.line + tok_breaks(t) }
-pub open spec fn span_end_col_single(p: CaretPos, t: Token) -> int { p.pos + tok_width(t) }
+/// C18: where the caret must be after consuming token `t` that starts at `p`: same line and
+/// `width` columns further for a token without line breaks; otherwise `breaks` lines down, just
+/// after the token's last-line text
+pub open spec fn span_end(p: CaretPos, t: Token) -> (int, int) {
+    if tok_breaks(t) == 0 { (p.line as int, p.pos + tok_width(t)) }
+    else { (p.line + tok_breaks(t), tok_last_line_width(t) as int + 1) }
+}
 
 pub open spec fn count_tok(s: Seq<Lex>, t: Token) -> nat
     decreases s.len()
@@ -100,7 +140,7 @@ pub open spec fn wf(s: State) -> bool {
     &&& s.pos.line >= 1 && s.pos.pos >= 1
     &&& s.cur_indent >= 1 && s.line_indent >= 1
     &&& small(s.pos.line) && small(s.pos.pos)
-    &&& s.line_indent as int <= s.pos.pos as int
+    &&& s.line_indent < 0x4000_0000
     &&& s.cur_indent < 0x4000_0000
     &&& (!s.token_this_line ==> s.line_indent as int == s.pos.pos as int)
     &&& all_nl(s.newlines@)
@@ -114,42 +154,85 @@ pub open spec fn step_space(a: Abs) -> Abs {
 pub open spec fn step_nl(a: Abs) -> Abs {
     Abs { line: a.line + 1, col: 1, li: 1, ttl: false, nls: a.nls + 1, ..a }
 }
-/// a non-NL token of width w containing b line breaks
+/// a non-NL token containing b line breaks and occupying w columns on its last line
 pub open spec fn step_tok(a: Abs, w: int, b: int) -> Abs {
-    Abs { cur: a.li, ttl: true, line: a.line + b, col: a.col + w, nls: 0, ..a }
+    Abs { cur: a.li, ttl: true, line: a.line + b, col: if b == 0 { a.col + w } else { w + 1 }, nls: 0, ..a }
 }
 /// #Indent - #Dedent a token emits in state a (Rust `/` truncates toward zero)
 pub open spec fn net_indent(a: Abs) -> int {
     if a.li >= a.cur { (a.li - a.cur) / 4 } else { -((a.cur - a.li) / 4) }
 }
 
-impl Token {
-    /// `to_string().len()` — outside the verifiers' reach (Display/format!); A-TOK
-    #[verifier::external_body]
-    pub fn width(&self) -> (r: usize)
-        ensures r == tok_width(*self),
-    { unimplemented!() }
+/// A-TOK: `Display for Token` prints the token's source spelling (format!/write! are outside both
+/// verifiers).  Outline of `self.to_string()`; text unchanged.
+#[verifier::external_body]
+pub fn verif_outline_spelling(t: &Token) -> (r: String)
+    ensures r@.len() == tok_width(*t), str_breaks(r@) == tok_breaks(*t),
+            tok_breaks(*t) > 0 ==> last_line_len(r@) == tok_last_line_width(*t),
+{ unimplemented!() /* outlined text: self.to_string() — Display for Token is not part of the extracted file */ }
+
+/// A-STD outlines (text unchanged): str::rfind / str::matches(..).count() / String::len on ASCII text
+#[verifier::external_body]
+pub fn verif_outline_rfind_nl(text: &String) -> (r: Option<usize>)
+    ensures (r is None) == (str_breaks(text@) == 0),
+            r matches Some(i) ==> i < text@.len() && i + 1 + last_line_len(text@) == text@.len(),
+{ text.rfind('\n') }
+#[verifier::external_body]
+pub fn verif_outline_count_nl(text: &String) -> (r: usize)
+    ensures r == str_breaks(text@),
+{ text.matches('\n').count() }
+#[verifier::external_body]
+pub fn verif_outline_len(text: &String) -> (r: usize)
+    ensures r == text@.len(),
+{ text.len() }
+
+pub proof fn lemma_last_line_len_no_break(s: Seq<char>)
+    requires str_breaks(s) == 0,
+    ensures last_line_len(s) == s.len(),
+    decreases s.len(),
+{
+    if s.len() > 0 { lemma_last_line_len_no_break(s.drop_last()); }
 }
 
-/// outline of `_str.matches('\n').count()` (text unchanged; Iterator::count cannot be specified in Verus)
-#[verifier::external_body]
-pub fn verif_outline_breaks(_str: &String) -> (r: usize)
-    ensures r == str_breaks(_str@),
-{ _str.matches('\n').count() }
+impl Token {
+//@@ FN src/parse/lex/token.rs | impl Token | width
+//@@ OUTLINE optional
+//@@< self.to_string().len()
+//@@> verif_outline_len(&verif_outline_spelling(self))
+    ensures r == tok_width(*self),                                               //# width_is_spelling_length [C18,C19]
+//@@ END
+//@@ FN src/parse/lex/token.rs | impl Token | extent
+//@@ OUTLINE optional
+//@@< self.to_string()
+//@@> verif_outline_spelling(self)
+//@@ OUTLINE optional
+//@@< text.rfind('\n')
+//@@> verif_outline_rfind_nl(&text)
+//@@ OUTLINE optional
+//@@< text.matches('\n').count()
+//@@> verif_outline_count_nl(&text)
+//@@ OUTLINE optional count=all
+//@@< text.len()
+//@@> verif_outline_len(&text)
+//@@ HINT before optional
+//@@< match text.rfind('\n')
+//@@> proof { if str_breaks(text@) == 0 { lemma_last_line_len_no_break(text@); } }
+    ensures
+        r.0 == tok_breaks(*self),                                                //# extent_counts_line_breaks [C18,C19]
+        r.1 == tok_last_line_width(*self),                                       //# extent_last_line_width [C18]
+//@@ END
+}
 
 impl Lex {
 //@@ FN src/parse/lex/token.rs | impl Lex | new
-//@@ OUTLINE count=2
-//@@< _str.matches('\n').count()
-//@@> verif_outline_breaks(_str)
     requires
         small(start.line), small(start.pos), tok_breaks(token) < 0x4000_0000, tok_width(token) < 0x4000_0000,
+        tok_last_line_width(token) < 0x4000_0000,                                //# sizes_below_2_30 [C03]
     ensures
         r.token == token,                                                        //# token_kept [C18]
         r.pos.start == start,                                                    //# span_starts_at_given_caret [C18]
-        r.pos.end.line == span_end_line(start, token),                           //# end_line_counts_line_breaks [C18,C19]
-        tok_breaks(token) == 0 ==> r.pos.end.pos == span_end_col_single(start, token),  //# end_col_single_line [C18]
-        r.pos.end.pos == start.pos + tok_width(token),                           //# end_col_as_computed [-]
+        r.pos.end.line == span_end(start, token).0,                              //# end_line_counts_line_breaks [C18,C19]
+        r.pos.end.pos == span_end(start, token).1,                               //# end_col_after_last_line_text [C18]
 //@@ END
 }
 
@@ -174,9 +257,6 @@ impl State {
 //@@ CLOSURE
 //@@< |nl| vec![nl]
 //@@> |nl: Lex| -> (v: Vec<Lex>) ensures v@ =~= seq![nl] { vec![nl] }
-//@@ OUTLINE count=2
-//@@< _str.matches('\n').count()
-//@@> verif_outline_breaks(_str)
 //@@ HINT after
 //@@< let mut res = self.newlines.pop().map_or(vec![], |nl| vec![nl]);
 //@@> let ghost g0 = res@; let ghost gnl = self.newlines@;
@@ -185,21 +265,21 @@ impl State {
 //@@> let ghost g1 = res@;
 //@@ HINT before
 //@@< res }
-//@@> proof { lemma_token_output(*old(self), token, g0, gnl, g1, res@); }
+//@@> proof { lemma_token_output(*old(self), res@.last().token, g0, gnl, g1, res@); }
     requires
         wf(*old(self)),
         old(self).pos.line + tok_breaks(token) + 1 < 0x4000_0000,
-        old(self).pos.pos + tok_width(token) + 4 < 0x4000_0000,
+        old(self).pos.pos + tok_width(token) + 4 < 0x4000_0000, tok_last_line_width(token) + 4 < 0x4000_0000,
         old(self).newlines@.len() < 0x4000_0000,                                 //# sizes_below_2_30 [C03]
     ensures
         wf(*final(self)),                                                        //# invariant_kept [C18,C14]
         token == Token::NL ==> r@.len() == 0 && abs(*final(self)) == step_nl(abs(*old(self)))
             && final(self).newlines@ == old(self).newlines@.push(Lex { pos: Position { start: old(self).pos, end: old(self).pos }, token: Token::NL }),   //# newline_is_buffered [C18,C14]
-        token != Token::NL ==> abs(*final(self)) == step_tok(abs(*old(self)), tok_width(token) as int, tok_breaks(token) as int),   //# token_state_step [C18,C14]
+        token != Token::NL ==> abs(*final(self)) == step_tok(abs(*old(self)), tok_last_line_width(token) as int, tok_breaks(token) as int),   //# token_state_step [C18,C14]
         token != Token::NL ==> r@.len() >= 1 && r@.last().token == token && r@.last().pos.start == old(self).pos,   //# real_token_is_last_and_starts_at_caret [C18]
         token != Token::NL ==> final(self).pos == r@.last().pos.end,             //# caret_is_end_of_span [C18]
-        token != Token::NL ==> final(self).pos.line == span_end_line(old(self).pos, token),   //# caret_line_counts_line_breaks [C18,C19]
-        token != Token::NL && tok_breaks(token) == 0 ==> final(self).pos.pos == span_end_col_single(old(self).pos, token),   //# caret_col_single_line [C18]
+        token != Token::NL ==> final(self).pos.line == span_end(old(self).pos, token).0,   //# caret_line_counts_line_breaks [C18,C19]
+        token != Token::NL ==> final(self).pos.pos == span_end(old(self).pos, token).1,   //# caret_col_after_last_line_text [C18]
         token != Token::NL ==> forall|i: int| 0 <= i < r@.len() - 1 ==> is_synthetic(#[trigger] r@[i].token)
             && caret_le(r@[i].pos.start, old(self).pos),                        //# only_synthetic_before_real_token [C18,C14]
         token != Token::NL ==> count_tok(r@.drop_last(), Token::Indent) as int - count_tok(r@.drop_last(), Token::Dedent) as int
